@@ -567,10 +567,19 @@ EXTRA_ID = EXTRA_OPS + """
 Definition is_some {A} (o : option A) := match o with Some _ => true | None => false end.
 Definition oeq_same (m : option bool) (o : option bool) :=
   match m, o with Some x, Some y => Bool.eqb x y | None, None => true | _, _ => false end.
-Definition feat_case := ((feat * feat) * (option bool * bool * bool))%type.
+(* observed: a == b (None = raised), hash(a) defined, hash(b) defined, hash(a) == hash(b) (None = not both defined).
+   Equal modelled hash keys must come with equal observed hashes (the converse cannot be demanded: Python's hash
+   collides on different keys, e.g. hash("") = hash(0)). *)
+Definition kf_ctx_inf (a : feat) : bool := match f_child_inf a with Some (InContext, _) => true | _ => false end.
+Definition feat_case := ((feat * feat) * (option bool * bool * bool * option bool))%type.
 Definition chk_feat (c : feat_case) : bool :=
-  match c with ((a, b), (oe, ha, hb)) =>
-    oeq_same (feat_eq a b) oe && Bool.eqb (is_some (feat_hkey a)) ha && Bool.eqb (is_some (feat_hkey b)) hb end.
+  match c with ((a, b), (oe, ha, hb, oheq)) =>
+    oeq_same (feat_eq a b) oe && Bool.eqb (is_some (feat_hkey a)) ha && Bool.eqb (is_some (feat_hkey b)) hb
+    && match feat_hkey a, feat_hkey b, oheq with
+       | Some x, Some y, Some o => if py_eq x y then o else true   (* equal keys must give equal hashes; hash("") = hash(0) *)
+       | _, _, _ => true
+       end
+  end.
 Definition link_case := ((plink * plink) * bool)%type.
 Definition chk_link (c : link_case) : bool := Bool.eqb (plink_eq (fst (fst c)) (snd (fst c))) (snd c).
 Definition idx_case := ((list string * list string) * bool)%type.
@@ -613,13 +622,46 @@ def gen_feat(rng: random.Random) -> dict:
     if rng.random() < 0.4:
         child = gen_good_init(rng, keys)
         child["p"] = []
+    inf = None
+    if rng.random() < 0.3:                 # child_options[in_features] holds Feature objects
+        inf = gen_inf(rng)
+        child = child or {"g": [], "c": [], "p": []}
+        child["g"] = [kv for kv in child["g"] if not is_inf_key(kv[0])]
+        child["c"] = [kv for kv in child["c"] if not is_inf_key(kv[0])]
     return {"name": rng.choice(["f", "g"]), "opt": o, "domain": rng.choice([None, None, "d1", "d2"]),
-            "cfw": rng.choice([None, None, [0], [1], [0, 1]]), "dtype": rng.choice([None, None, 1, 3, 5]), "child": child}
+            "cfw": rng.choice([None, None, [0], [1], [0, 1]]), "dtype": rng.choice([None, None, 1, 3, 5]), "child": child, "inf": inf}
+
+
+INF_NAMES = ["n0", "n3", "n1", "n7", "p", "q"]       # n0 / n3 iterate in insertion-dependent order under PYTHONHASHSEED=0
+
+
+def is_inf_key(k: Any) -> bool:
+    return k == "in_features" or k == ["K", "in_features"]
+
+
+def gen_inf(rng: random.Random) -> dict:
+    kind = "set" if rng.random() < 0.8 else "one"
+    m = rng.choice([1, 2, 2, 3, 4]) if kind == "set" else 1
+    elems = []
+    while len(elems) < m:
+        e = [rng.choice(INF_NAMES), rng.choice([0, 0, 1])]
+        if e not in elems:
+            elems.append(e)
+    return {"loc": "group" if rng.random() < 0.75 else "context", "kind": kind, "elems": elems}
+
+
+def build_inf(inf: dict) -> Any:
+    from mloda.core.abstract_plugins.components.feature import Feature
+    from mloda.core.abstract_plugins.components.options import Options
+    fs = [Feature(n, Options(group={"e": c}) if c else Options()) for n, c in inf["elems"]]
+    return frozenset(fs) if inf["kind"] == "set" else fs[0]
 
 
 def feat_variant(rng: random.Random, f: dict) -> dict:
     g = json.loads(json.dumps(f))
     r = rng.random()
+    if f.get("inf") and rng.random() < 0.5:
+        r = 0.9                                # vary the Feature-valued in_features (branch below)
     if r < 0.3:
         pass
     elif r < 0.38:
@@ -634,10 +676,27 @@ def feat_variant(rng: random.Random, f: dict) -> dict:
         g["cfw"] = rng.choice([None, [0], [1], [1, 0]])
     elif r < 0.86:
         g["dtype"] = rng.choice([None, 1, 3])
-    else:
-        g["child"] = None if rng.random() < 0.3 else (f["child"] and {**f["child"], "g": variant(rng, ["D", f["child"]["g"]])[1]}) or gen_good_init(rng, KEYS[:3])
-        if g["child"]:
-            g["child"]["p"] = []
+    elif r < 0.93 or f.get("inf"):
+        if f.get("inf") and rng.random() < 0.85:
+            i2 = g["inf"]
+            rr = rng.random()
+            if rr < 0.55:
+                i2["elems"] = i2["elems"][::-1] if rng.random() < 0.5 else rng.sample(i2["elems"], len(i2["elems"]))   # same set, other insertion order
+            elif rr < 0.75:
+                i2["elems"][rng.randrange(len(i2["elems"]))] = [rng.choice(INF_NAMES), rng.choice([0, 1])]
+                i2["elems"] = [e for k, e in enumerate(i2["elems"]) if e not in i2["elems"][:k]]
+            elif rr < 0.9:
+                i2["loc"] = "context" if i2["loc"] == "group" else "group"
+            else:
+                g["inf"] = gen_inf(rng)
+        else:
+            g["child"] = None if rng.random() < 0.3 else (f["child"] and {**f["child"], "g": variant(rng, ["D", f["child"]["g"]])[1]}) or gen_good_init(rng, KEYS[:3])
+            if g["child"]:
+                g["child"]["p"] = []
+            if g.get("inf"):
+                g["child"] = g["child"] or {"g": [], "c": [], "p": []}
+                g["child"]["g"] = [kv for kv in g["child"]["g"] if not is_inf_key(kv[0])]
+                g["child"]["c"] = [kv for kv in g["child"]["c"] if not is_inf_key(kv[0])]
     # a variant may have created a group/context overlap: reject by construction check
     try:
         build_options(g["opt"])
@@ -657,14 +716,22 @@ def build_feat(d: dict) -> Any:
         f._set_compute_frameworks({cfw_classes()[i] for i in d["cfw"]})
     if d["child"] is not None:
         f.child_options = build_options(d["child"])
+    if d.get("inf"):
+        target = f.child_options.group if d["inf"]["loc"] == "group" else f.child_options.context
+        target["in_features"] = build_inf(d["inf"])
     return f
 
 
 def feat_term(d: dict) -> str:
     cf = "None" if d["cfw"] is None else f"(Some {cq_list(cq_nat(i) for i in d['cfw'])})"
     ch = "None" if d["child"] is None else f"(Some (mk_other {init_term(d['child'])}))"
+    inf = "None"
+    if d.get("inf"):
+        els = cq_list(f"({cq_str(n)}, {cq_nat(c)})" for n, c in d["inf"]["elems"])
+        val = f"(InfSet {els})" if d["inf"]["kind"] == "set" else f"(InfOne ({cq_str(d['inf']['elems'][0][0])}, {cq_nat(d['inf']['elems'][0][1])}))"
+        inf = f"(Some ({'InGroup' if d['inf']['loc'] == 'group' else 'InContext'}, {val}))"
     return (f"{{| f_name := {cq_str(d['name'])}; f_opt := mk_other {init_term(d['opt'])}; f_domain := {vlib.cq_opt(None if d['domain'] is None else cq_str(d['domain']))}; "
-            f"f_cfw := {cf}; f_dtype := {vlib.cq_opt(None if d['dtype'] is None else cq_nat(d['dtype']))}; f_child := {ch} |}}")
+            f"f_cfw := {cf}; f_dtype := {vlib.cq_opt(None if d['dtype'] is None else cq_nat(d['dtype']))}; f_child := {ch}; f_child_inf := {inf} |}}")
 
 
 def observe_eq_hash(a: Any, b: Any) -> Tuple[Optional[bool], Optional[int], Optional[int], Optional[str]]:
@@ -717,7 +784,9 @@ def check_ident(rep: vlib.Reporter, rng: random.Random, n: int) -> bool:
 
     # ---- Feature
     terms, descs = [], []
-    st = {"equal": 0, "unequal": 0, "eq_raised": 0, "equal_hash_checked": 0, "unhashable": 0, "context_only_difference": 0}
+    st = {"equal": 0, "unequal": 0, "eq_raised": 0, "equal_hash_checked": 0, "unhashable": 0, "context_only_difference": 0,
+          "with_feature_valued_in_features": 0, "equal_with_reordered_in_features": 0, "child_context_in_features_domain": 0}
+    kf_ctx: Optional[dict] = None
     for _ in range(n):
         fa = gen_feat(rng)
         fb = feat_variant(rng, fa) if rng.random() < 0.9 else gen_feat(rng)
@@ -727,7 +796,15 @@ def check_ident(rep: vlib.Reporter, rng: random.Random, n: int) -> bool:
         except Unmodelled:
             continue
         e, h1, h2, odd = observe_eq_hash(a, b)
-        found |= check_coherence(rep, "feature", [fa, fb], e, h1, h2, odd)
+        in_kf = any(x.get("inf") and x["inf"]["loc"] == "context" for x in (fa, fb))
+        st["child_context_in_features_domain"] += in_kf
+        st["with_feature_valued_in_features"] += bool(fa.get("inf") or fb.get("inf"))
+        if in_kf and not odd and e and h1 is not None and h2 is not None and h1 != h2:
+            kf_ctx = kf_ctx or {"kind": "feature", "pair": [fa, fb]}      # known-finding domain only
+        else:
+            found |= check_coherence(rep, "feature", [fa, fb], e, h1, h2, odd)   # strict everywhere else
+        if e and fa.get("inf") and fb.get("inf") and fa["inf"]["elems"] != fb["inf"]["elems"] and h1 is not None and h2 is not None:
+            st["equal_with_reordered_in_features"] += 1
         st["equal" if e else ("eq_raised" if e is None else "unequal")] += 1
         st["unhashable"] += (h1 is None) + (h2 is None)
         if e and h1 is not None and h2 is not None:
@@ -736,13 +813,14 @@ def check_ident(rep: vlib.Reporter, rng: random.Random, n: int) -> bool:
                 rep.nontrivial(("feat", fa, fb))
         if e is False and h1 is not None and h1 == h2 and a.options.context != b.options.context:
             st["context_only_difference"] += 1
-        terms.append(f"(({ta}, {tb}), ({opt_b(e)}, {cq_bool(h1 is not None)}, {cq_bool(h2 is not None)}))")
+        heq = opt_b(h1 == h2) if (h1 is not None and h2 is not None) else "None"
+        terms.append(f"(({ta}, {tb}), ({opt_b(e)}, {cq_bool(h1 is not None)}, {cq_bool(h2 is not None)}, {heq}))")
         descs.append([fa, fb])
     bad, info = vlib.run_cases(P, "feat", REQ_ID, "chk_feat", terms, extra_defs=EXTRA_ID, case_type="feat_case", shard=250)
     rep.count(len(terms))
     info_all["feature"] = {**info, "pairs": len(terms), **st, "disagreements": len(bad)}
     for i in bad[:5]:
-        rep.finding("feat:" + json.dumps(descs[i])[:300], "Feature.__eq__ result / hash definedness differs from the model",
+        rep.finding("feat:" + json.dumps(descs[i])[:300], "Feature.__eq__ result / hash definedness / hash equality differs from the model",
                     {"kind": "feature", "pair": descs[i]})
         found = True
     rep.sample({"kind": "feature", "pair": descs[0]})
@@ -797,7 +875,7 @@ def check_ident(rep: vlib.Reporter, rng: random.Random, n: int) -> bool:
                 return gen_val(rng, 1) if r < 0.9 else ["L", [1, 2]]
             params = [[rng.choice(PK) if rng.random() < 0.95 else rng.choice([1, None]), pv()] for _ in range(m)]
             ff = gen_feat(rng)
-            ff["child"] = None
+            ff["child"], ff["inf"] = None, None
             return {"feat": ff, "type": rng.choice(["range", "equal", "categorical_inclusion"]), "params": params}
         sa = gs()
         sb = json.loads(json.dumps(sa)) if rng.random() < 0.5 else gs()
@@ -867,13 +945,34 @@ def check_ident(rep: vlib.Reporter, rng: random.Random, n: int) -> bool:
     if raised is not None:
         rep.finding("C15-filter-unhashable-parameter", "GlobalFilter.add_filter with a list-valued parameter raises TypeError: " + raised,
                     {"kind": "kf_filter", **wit})
-    # ---- known finding 2: equal Features, different hashes (child_options[in_features] = frozenset of Features)
+    # ---- repaired finding (fixed:17adca0, suppresses nothing): child_options[in_features] = equal frozensets of Features
+    # with different iteration orders must hash equal.  Strict: a failure is a VIOLATION.
     w2 = infeatures_witness()
-    info_all["kf_feature_hash_order"] = w2
+    info_all["feature_hash_in_features_order"] = w2
     if w2.get("equal") and not w2.get("hash_equal"):
-        rep.finding("C15-feature-hash-infeatures-order", "two equal Features hash differently", {"kind": "kf_infeatures", **w2})
+        rep.finding("C15-feature-hash-infeatures-order", "two equal Features (child_options[in_features] = the same frozenset of "
+                    f"Features {w2.get('pair')} built in two orders) hash differently", {"kind": "kf_infeatures", **w2})
+        found = True
+    # ---- known finding: the same Feature-valued in_features in the CONTEXT of the child options
+    w3 = child_context_witness()
+    info_all["kf_feature_hash_child_context"] = {**w3, "random_case_in_domain": kf_ctx is not None}
+    if (w3["equal"] and not w3["hash_equal"]) or kf_ctx:
+        rep.finding("C15-feature-hash-child-context-infeatures", "two equal Features hash differently (in_features in the child context)",
+                    kf_ctx or {"kind": "kf_child_context", **w3})
     rep.add("identities", info_all)
     return found
+
+
+def child_context_witness() -> dict:
+    from mloda.core.abstract_plugins.components.feature import Feature
+    from mloda.core.abstract_plugins.components.options import Options
+
+    def mk(n: str) -> Any:
+        f = Feature("top")
+        f.child_options = Options(group={"x": 1}, context={"in_features": frozenset([Feature(n)])})
+        return f
+    a, b = mk("p"), mk("q")
+    return {"equal": bool(a == b), "hash_equal": hash(a) == hash(b)}
 
 
 def infeatures_witness() -> dict:
@@ -934,7 +1033,7 @@ Definition chk_derived (c : d_case) : bool :=
   && forallb (fun call => match call with [] => false | gc :: t => forallb (fun gc' => py_eq (VDict (fst gc)) (VDict (fst gc'))) t end) calls.
 """
 
-GVALS: List[Any] = [1, True, 2, "x", None, ["L", [1, 2]], ["T", [1, 2]], ["S", [1, 2]], ["S", [2, True]], ["D", [["k", 1]]],
+GVALS: List[Any] = [1, True, 2, "x", None, "", 0, False, -1, -2, ["L", [1, 2]], ["T", [1, 2]], ["S", [1, 2]], ["S", [2, True]], ["D", [["k", 1]]],
                     ["D", [["k", True]]], ["L", [1, ["D", [["q", ["S", [1]]]]]]]]
 
 
@@ -985,9 +1084,8 @@ def py_agree(a: Any, b: Any) -> bool:
 
 
 def py_same_class(a: Any, b: Any) -> bool:
-    """what the implementation compares: canonical form of the group options, frameworks"""
-    from mloda.core.abstract_plugins.components.hashable_dict import _make_hashable
-    return _make_hashable(a.options.group) == _make_hashable(b.options.group) and a.compute_frameworks == b.compute_frameworks
+    """what the implementation compares: the hash of the canonical form of the group options, and the frameworks"""
+    return hash(a.options) == hash(b.options) and a.compute_frameworks == b.compute_frameworks
 
 
 def py_conflation(feats: List[Any]) -> bool:
@@ -1104,9 +1202,12 @@ def grouping_witnesses() -> dict:
     a = Feature.int64_of("f0", Options(group={"c": [1, 2]}))
     b = Feature.int64_of("f2", Options(group={"c": (1, 2)}))
     o3 = names([a, b])
+    c, d = Feature.int64_of("f3", Options(group={"c": ""})), Feature.int64_of("f4", Options(group={"c": 0}))
+    o4 = names([c, d])
     return {"untyped": {"kind": "kf_untyped", "order_t1_t2_u": o1, "order_t2_t1_u": o2, "defect_present": o1 != o2},
             "conflation": {"kind": "kf_conflation", "options_equal": bool(a.options == b.options), "groups": o3,
-                           "defect_present": (not a.options == b.options) and len(o3) == 1}}
+                           "empty_string_vs_zero_groups": o4,
+                           "defect_present": ((not a.options == b.options) and len(o3) == 1) or len(o4) == 1}}
 
 
 # ---- end to end
@@ -1287,7 +1388,8 @@ def run(rep: vlib.Reporter, tier: str, seed: int) -> None:
         "Python hash() of str / int / bool / None / tuple / frozenset / Enum respects == and does not collide on the different "
         "canonical forms explored (grouping is by hash integers)",
         "value fragment: dict keys are atoms (str incl. str-Enum, int, bool, None, plain Enum member); no floats; opaque objects are "
-        "Enum members (hashable) or identity-equal unhashable objects; Feature objects inside options only in the in_features witness",
+        "Enum members (hashable) or identity-equal unhashable objects; Feature objects inside options only as child_options[in_features] "
+        "(frozenset of Features or a single Feature, in group or context of the child options)",
         "set iteration order: the unit-level grouping tie reads list(set) of the very set passed in; the end-to-end tie accepts any order",
         "not modelled: _split_features_by_dependency_levels (features of one group that depend on each other), Options.__deepcopy__"]
     rep.add("rule", "ops: PRNG sequences of <= 12 calls on a real Options object over 3-6 colliding keys (values nested <= 2 levels), state "
@@ -1355,6 +1457,8 @@ def replay(path: str) -> int:
             print("now: TypeError", e)
     elif kind == "kf_infeatures":
         print("now:", infeatures_witness())
+    elif kind == "kf_child_context":
+        print("now:", child_context_witness())
     elif kind in ("kf_untyped", "kf_conflation"):
         print("now:", grouping_witnesses())
     return 0
